@@ -158,7 +158,12 @@ func c15Check(src, plain string, siblingOrd map[int]bool) (kind, detail string) 
 	if op.Panic != "" || op.Err != nil {
 		return "", "" // skeleton not accepted: outside the domain
 	}
-	o := parseMode(src, Mode{})
+	// the tree is printed only after its builder has built and run another parser on a commented input:
+	// comments belong to the tree, later use of the builder must not touch them
+	pbShared := newPB(Mode{})
+	o := parseWith(pbShared, src)
+	parseWith(pbShared, "// first\n\n\nq ; // second\n{ // third\n\n// fourth\n}\n// fifth\n\n")
+	parseWith(pbShared, "z // sixth")
 	if o.Panic != "" {
 		return "panic", o.Panic
 	}
